@@ -498,7 +498,8 @@ def d4(cx: Cx, ob: Ob) -> None:
         c, ev, ctx = appends[0]
         if c[2] != (ctx.loops[-1].a,):
             ob.violate(fn.qualname, where(fn, ev.line), "the row collected for writing is not the row that was read", detail="row")
-        if s.must_guards(ev):
+        if len({e_.line for _, e_, _ in appends}) == 1 and s.must_guards(ev):
+            # (with several append statements the rows are judged path by path above: every path must append)
             ob.violate(fn.qualname, where(fn, ev.line), "rows are kept only conditionally: some rows disappear from the file", detail="row-filter")
     if any(callee_name(c) in ("sorted", "reversed", "sort", "reverse") for c, _, _ in s.calls() if any(op(x) == "new" for x in subterms(c))):
         ob.violate(fn.qualname, fn.where, "rows are re-ordered before writing", detail="row-order")
